@@ -42,9 +42,14 @@ func VerifC18_CASStep() {
 			panic(err)
 		}
 	}
-	uid, vsn := vTok("op.uid"), verifrt.Str("op.vsn", 1)
+	// the deleter may present no Uid at all: any Uid other than the stored one is another lifetime
+	uid, vsn := verifrt.Str("op.uid", 1), verifrt.Str("op.vsn", 1)
 	newV := vTok("op.newversion")
-	if verifrt.Bool("delete") {
+	isDelete := verifrt.Bool("delete")
+	if !isDelete {
+		verifrt.Assume(uid != "")
+	}
+	if isDelete {
 		err := s.DeleteCAS(vRes("r", uid, "").Id, vsn)
 		got, rerr := s.Read(vRes("r", "", "").Id)
 		switch {
@@ -118,9 +123,10 @@ func VerifC18_TwoWriters() {
 	staleVsn := verifrt.Str("stale.vsn", 1)
 	ew := s.WriteCAS(vRes("r", uid, vTok("stale.new")), staleVsn)
 	ed := s.DeleteCAS(vRes("r", uid, "").Id, staleVsn)
+	ed0 := s.DeleteCAS(vRes("r", "", "").Id, staleVsn) // a deleter that names no lifetime at all
 	got2, rerr := s.Read(vRes("r", "", "").Id)
 	verifrt.Assert("C18.recreated.stale-writer-refused", ew != nil)
-	verifrt.Assert("C18.recreated.stale-deleter-is-noop", ed == nil)
+	verifrt.Assert("C18.recreated.stale-deleter-is-noop", ed == nil && ed0 == nil)
 	verifrt.Assert("C18.recreated.new-lifetime-untouched", rerr == nil && got2.Id.Uid == uid2 && got2.Version == v2)
 	verifrt.Reached("end")
 }
